@@ -484,3 +484,79 @@ def emission_order(prj: Project, fi: FuncInfo, child_attr: str):
         else:
             events.append("other:" + unparse(st)[:40])
     return events, cur.site(lp), cur
+
+
+# --------------------------------------------------------------------------------------------------
+# ordering of a list by an attribute of its elements
+# --------------------------------------------------------------------------------------------------
+
+def key_direction(prj: Project, fi: FuncInfo, call: ast.Call, attr: str = "value") -> Optional[str]:
+    """sorted(...)/.sort(...) call -> 'desc' / 'asc' when the key is +-<element>.<attr> (evaluated symbolically:
+    lambdas, named key functions, attrgetter, negation), 'other' when it is something else, None when not evaluable"""
+    from .absint import Lin, MiniInterp, PyRaise, Sym, Unknown
+    key = rev = None
+    for k in call.keywords:
+        if k.arg == "key":
+            key = k.value
+        if k.arg == "reverse":
+            rev = k.value
+    if key is None:
+        return "other"
+    it = MiniInterp(prj)
+    try:
+        r = False if rev is None else it.ev(rev, {}, fi)
+        if not isinstance(r, bool):
+            return None
+        kf = it.ev(key, {}, fi)
+        v = it.apply(kf, [Sym("m", _open=True)])
+        l = Lin.of(v)
+    except (Unknown, PyRaise):
+        return None
+    if len(l.terms) == 1 and l.const == 0:
+        (p, c), = l.terms.items()
+        if p == f"m.{attr}" and c in (1, -1):
+            return "desc" if ((c == -1) != r) else "asc"
+    return "other"
+
+
+def list_value_order(prj: Project, fi: FuncInfo, expr, at, attr: str = "value") -> Optional[str]:
+    """how the list `expr` is ordered by .<attr> when `at` is reached: 'desc', 'asc', 'other', 'unsorted' or None"""
+    from .core import local_defs, reaching_def
+    names, todo, exprs = set(), [expr], []
+    while todo:
+        e = todo.pop()
+        if isinstance(e, ast.Name):
+            if e.id in names:
+                continue
+            names.add(e.id)
+            rd = reaching_def(fi, e.id, e)
+            if rd is not None:
+                todo.append(rd)
+                continue
+            for v, _ in local_defs(fi, e.id):
+                if v is not None:
+                    todo.append(v)
+        else:
+            exprs.append(e)
+    inplace = [c for c in fi.calls() if isinstance(c.func, ast.Attribute) and c.func.attr == "sort" and isinstance(c.func.value, ast.Name)
+               and c.func.value.id in names and (at is None or fi.pos(c) <= fi.pos(at))]
+    if inplace:
+        return key_direction(prj, fi, max(inplace, key=fi.pos), attr)
+    srt = [e for e in exprs if isinstance(e, ast.Call) and attr_chain(e.func) == "sorted"]
+    if srt and len(srt) == len(exprs):
+        ds = {key_direction(prj, fi, e, attr) for e in srt}
+        return ds.pop() if len(ds) == 1 else None
+    if srt:
+        return None
+    for e in exprs:
+        if isinstance(e, ast.Call):
+            tg, kind = prj.resolve_call(fi, e)
+            if kind in ("direct", "self") and len(tg) == 1:
+                callee = prj.func(tg[0].qual)
+                rets = [r for r in callee.walk() if isinstance(r, ast.Return) and r.value is not None]
+                if rets:
+                    ds = {list_value_order(prj, callee, r.value, r, attr) for r in rets}
+                    if len(ds) == 1:
+                        return ds.pop()
+                    return None
+    return "unsorted"
